@@ -50,9 +50,8 @@ class Control(BaseAPIClass):
             description: Optional[Text] = None) -> None:
         """Creates a Control object. """
         self._dimension = dimension
-        self._step_controls = {'pre':{}, 'post':{}}
-        self._time_controls = {'pre':{}, 'post':{}}
-        self._control_times = {'pre':np.array([]), 'post':np.array([])}
+        # lists of (time, control operation) in the order they were added
+        self._controls = {'pre':[], 'post':[]}
         super().__init__(name, description)
 
     @property
@@ -89,25 +88,9 @@ class Control(BaseAPIClass):
 
         control_operation = np.array(control_operation, dtype=NpDtype)
 
-        if isinstance(time, int):
-            steps = self._step_controls[pre_post].keys()
-            if time in steps:
-                self._step_controls[pre_post][time] = \
-                    control_operation @ self._step_controls[pre_post][time]
-            else:
-                self._step_controls[pre_post][time] = control_operation
-        elif isinstance(time, float):
-            if time in self._control_times[pre_post]:
-                self._time_controls[pre_post][time] = \
-                    control_operation @ self._time_controls[pre_post][time]
-            else:
-                self._time_controls[pre_post][time] = control_operation
-                times = np.append(self._control_times[pre_post], time)
-                times.sort()
-                self._control_times[pre_post] = times
-        else:
+        if not isinstance(time, (int, float)):
             raise TypeError("Parameter `time` must be either int or float.")
-
+        self._controls[pre_post].append((time, control_operation))
 
     def add_continuous(
             self,
@@ -146,47 +129,22 @@ class Control(BaseAPIClass):
             The control superoperator that should be applied after a state
             measurement.
         """
-        pre_control_bool = False
-        post_control_bool = False
-        pre_control = np.identity(self.dimension**2)
-        post_control = np.identity(self.dimension**2)
-
-        # -- pre time-stamp controls --
-        a = np.round((self._control_times['pre'] - start_time) / dt)
-        times = np.array(self._control_times['pre'])[np.nonzero(a==step)]
-        if len(times) > 0:
-            print(times)
-            pre_control_bool = True
-            pre_control = self._time_controls['pre'][times[0]] @ pre_control
-            for t in times[1:]:
-                pre_control = self._time_controls['pre'][t] @ pre_control
-
-        # -- pre step controls --
-        steps = self._step_controls['pre'].keys()
-        if step in steps:
-            pre_control_bool = True
-            pre_control = self._step_controls['pre'][step] @ pre_control
-
-        # -- post step controls --
-        steps = self._step_controls['post'].keys()
-        if step in steps:
-            post_control_bool = True
-            post_control = self._step_controls['post'][step] @ post_control
-
-        # -- post time-stamp controls --
-        a = np.round((self._control_times['post'] - start_time) / dt)
-        times = np.array(self._control_times['post'])[np.nonzero(a==step)]
-        if len(times) > 0:
-            post_control_bool = True
-            post_control = self._time_controls['post'][times[0]] @ post_control
-            for t in times[1:]:
-                post_control = self._time_controls['post'][t] @ post_control
-
-        if not pre_control_bool:
-            pre_control = None
-        if not post_control_bool:
-            post_control = None
-        return pre_control, post_control
+        controls = []
+        for pre_post in ['pre', 'post']:
+            control = None
+            # controls of one time step act in the order they were added
+            for time, control_operation in self._controls[pre_post]:
+                if isinstance(time, int):
+                    control_step = time
+                else:
+                    control_step = np.round((time - start_time) / dt)
+                if control_step == step:
+                    if control is None:
+                        control = control_operation
+                    else:
+                        control = control_operation @ control
+            controls.append(control)
+        return controls[0], controls[1]
 
 class ChainControl(BaseAPIClass):
     """
